@@ -22,7 +22,7 @@ meta = {
     "confirmed_by_me": {
         "what_i_ran": [
             "tools/confirm_seed.sh <worktree> <id>: demo with the change (must fail), demo with the change reverted (must pass), full nextest workspace suite with the change (demo excluded)",
-            f"tools/try_patch.sh seeded/{sid}/patch.diff {prop} quick: git -C /repo apply, ./run.sh check {prop} quick, git -C /repo checkout -- .",
+            f"tools/try_patch.sh seeded/{sid}/patch.diff {prop} quick (git -C /repo apply, ./run.sh check {prop} quick, git -C /repo checkout -- .) or tools/try_patch_iso.sh <slot> ... (the same check run by a private copy of the simulator against a scratch worktree with the patch applied)",
         ],
         "demo_fails_with_change": "demo_with=101" in log or "demo_with=1" in log,
         "demo_passes_without_change": "demo_without=0" in log,
